@@ -40,6 +40,9 @@ thread_local! {
     static PENDING: RefCell<Vec<Ev>> = const { RefCell::new(Vec::new()) };
     /// Calls of the sentinel panic hook.
     static SENTINEL: Cell<usize> = const { Cell::new(0) };
+    /// Identity of the sentinel hook that fired last (every execution installs its own).
+    static SENTINEL_FIRED: Cell<usize> = const { Cell::new(0) };
+    static SENTINEL_SEQ: Cell<usize> = const { Cell::new(0) };
     /// Every item of the current execution is kept alive until it ends, so that a
     /// `Source` address is never reused within one execution (pointer identity is
     /// the only way to tell equal-by-value entities apart).
@@ -213,11 +216,19 @@ impl Trace {
     }
 }
 
-fn install_sentinel() {
+/// Installs a fresh sentinel panic hook and returns its identity: the hook in place
+/// after a run must be *this* one, not the sentinel of an earlier run in the process.
+fn install_sentinel() -> usize {
     SENTINEL.with(|s| s.set(0));
-    panic::set_hook(Box::new(|_| {
+    let id = SENTINEL_SEQ.with(|s| {
+        s.set(s.get() + 1);
+        s.get()
+    });
+    panic::set_hook(Box::new(move |_| {
         SENTINEL.with(|s| s.set(s.get() + 1));
+        SENTINEL_FIRED.with(|s| s.set(id));
     }));
+    id
 }
 
 fn fold_event(acc: u64, ev: &Ev) -> u64 {
@@ -246,7 +257,7 @@ pub fn execute(
     KEEPALIVE.with(|k| k.borrow_mut().clear());
     cv::clock_enable();
     cv::idle_limit(IDLE_LIMIT);
-    install_sentinel();
+    let sentinel_id = install_sentinel();
 
     let mut tr = Trace::default();
     let flag = Arc::new(Flag(AtomicBool::new(true)));
@@ -377,7 +388,8 @@ pub fn execute(
         }
 
         match &opts[chosen] {
-            Opt::Release(g, _) => {
+            Opt::Release(g, label) => {
+                hs::log(hs::LogKind::Released(label.clone()));
                 hs::release_gate(*g);
                 noprog = 0;
             }
@@ -466,9 +478,10 @@ pub fn execute(
     if tr.ended {
         // Probe: is the hook installed before the run in place again?
         let before = SENTINEL.with(Cell::get);
+        SENTINEL_FIRED.with(|s| s.set(0));
         let _ = panic::catch_unwind(|| panic::panic_any(0u8));
         let after = SENTINEL.with(Cell::get);
-        tr.hook_restored = Some(after == before + 1);
+        tr.hook_restored = Some(after == before + 1 && SENTINEL_FIRED.with(Cell::get) == sentinel_id);
     }
     drop(subject.take());
     // restore a quiet hook of our own for whatever follows
